@@ -82,7 +82,7 @@ theorem auth_on_stores_payload (fixed : Bool) (P : Params) (ok : EncodeOK P) (pa
   simp only [if_true]
   exact Chunked.decode_encode P ok payload hlen sizes
 
-/-- **Negation (the unchanged tree, no credentials configured).** For *every* payload and
+/-- **Negation (the tree before /repo c8f3b44, no credentials configured).** For *every* payload and
 chunking the upload handler is handed the framed body itself, which is never the payload:
 chunk-size lines, signatures and trailers end up in the stored object. -/
 theorem auth_off_stores_framing (P : Params) (payload : Bytes) (sizes : List Nat) :
@@ -97,7 +97,7 @@ theorem auth_off_stores_framing (P : Params) (payload : Bytes) (sizes : List Nat
 /-- The same without credentials for tampered bodies: nothing is ever refused. -/
 theorem auth_off_accepts_anything (P : Params) (wire : Bytes) : storedBody false false P wire = .ok wire := rfl
 
-/-- **auth_off_fixed_stores_payload** (behaviour after fixes/C30-decode-aws-chunked-without-auth.patch):
+/-- **auth_off_fixed_stores_payload** (the current tree, /repo c8f3b44 and later):
 a framing-only decoder in the configuration without credentials hands the handler the payload of
 every conforming upload, in all four modes. -/
 theorem auth_off_fixed_stores_payload (P : Params) (ok : EncodeOK P) (payload : Bytes)
